@@ -75,6 +75,14 @@ fn build_program(seed: u64) -> Vec<(usize, u8)> {
   // WRAM routine source (copied to 0xC100): a few ALU ops ; RET
   a.at(0x3020); safe_ops(&mut a, &mut rng, 5); a.b(&[0xc9]);
   let wram_len = a.pc - 0x3020;
+  // bank-switching trampoline that lives in work RAM (copied to 0xC180): LD (0x2100),A ; JP 0x4000
+  a.at(0x3060); a.b(&[0xea, 0x00, 0x21, 0xc3, 0x00, 0x40]);
+  // a work-RAM routine that runs the SAME banked address under two banks with nothing but RAM code in between
+  // (copied to 0xC1A0): LD A,b1 ; LD (0x2100),A ; CALL 0x4040 ; LD A,b2 ; LD (0x2100),A ; CALL 0x4040 ; RET
+  let (rb1, rb2) = (1 + rng.below(7) as u8, 1 + rng.below(7) as u8);
+  a.at(0x3080); a.b(&[0x3e, rb1, 0xea, 0x00, 0x21, 0xcd, 0x40, 0x40, 0x3e, rb2, 0xea, 0x00, 0x21, 0xcd, 0x40, 0x40, 0xc9]);
+  // a long straight-line stretch (more than 256 guest bytes in one block): INC B x 300 ; RET
+  a.at(0x3100); for _ in 0..300 { a.b(&[0x04]); } a.b(&[0xc9]);
   // main program
   a.at(0x0150);
   a.b(&[0xf3, 0x31, 0xff, 0xdf, 0x21, 0x00, 0xc0]);          // DI ; LD SP,0xDFFF ; LD HL,0xC000
@@ -91,12 +99,23 @@ fn build_program(seed: u64) -> Vec<(usize, u8)> {
   a.b(&[0x21, 0x00, 0x30, 0x0e, 0x80, 0x06, 0x0a, 0x2a, 0xe2, 0x0c, 0x05, 0x20, 0xfa]);
   // copy the WRAM routine: LD HL,0x3020 ; LD DE,0xC100 ; LD B,len ; loop: LD A,(HL+) ; LD (DE),A ; INC DE ; DEC B ; JR NZ,loop
   a.b(&[0x21, 0x20, 0x30, 0x11, 0x00, 0xc1, 0x06, wram_len as u8, 0x2a, 0x12, 0x13, 0x05, 0x20, 0xfa]);
+  // copy the WRAM trampoline: LD HL,0x3060 ; LD DE,0xC180 ; LD B,6 ; loop
+  a.b(&[0x21, 0x60, 0x30, 0x11, 0x80, 0xc1, 0x06, 0x06, 0x2a, 0x12, 0x13, 0x05, 0x20, 0xfa]);
+  // copy the two-bank RAM routine: LD HL,0x3080 ; LD DE,0xC1A0 ; LD B,17 ; loop
+  a.b(&[0x21, 0x80, 0x30, 0x11, 0xa0, 0xc1, 0x06, 0x11, 0x2a, 0x12, 0x13, 0x05, 0x20, 0xfa]);
   a.b(&[0x21, 0x00, 0xc0]);
   if ie != 0 { a.b(&[0xfb]); }                               // EI
   let main_loop = a.pc;
   let nfrag = 6 + rng.below(10) as usize;
   for _ in 0..nfrag {
-    match rng.below(10) {
+    match rng.below(14) {
+      13 => { a.b(&[0xcd, 0xa0, 0xc1]); },                    // same banked address under two banks, driven from work RAM
+      10 => {                                                // two calls of the SAME banked address under different banks through the RAM trampoline
+        let b1 = 1 + rng.below(7) as u8; let b2 = 1 + (b1 + rng.below(6) as u8) % 7;
+        a.b(&[0x3e, b1, 0xcd, 0x80, 0xc1, 0x3e, b2, 0xcd, 0x80, 0xc1]);
+      },
+      11 => { a.b(&[0xcd, 0x00, 0x31]); },                    // the 300-instruction straight-line block
+      12 => { a.b(&[0x06, 0x03, 0xcd, 0x00, 0x31, 0x3e, rng.u8(), 0x80]); },
       0 | 1 => {                                             // counted loop
         a.b(&[0x06, 1 + rng.below(20) as u8]);
         let top = a.pc;
